@@ -339,6 +339,16 @@ def validate_before_decode(ctx):
         if not any(_is_sharing_guard(ctx, fi) for fi in g):
             ok_guard, found = False, ("decoded item returned without a sharing guard" if not g else
                                       f"{[getattr(x, 'qualname', x) for x in g]} not recognised as a sharing guard")
+    # ---- D10: the one decoder product whose comparison raises (decimal fraction holding a signaling NaN) is refused as well
+    R.rule("C17-D10 signaling NaN refused", 1, "the decoded item passes a guard that raises a ValueError for a Decimal signaling NaN anywhere inside it")
+    ok_snan, found_snan = bool(guards), "no return path"
+    for g in guards:
+        if not any(_refuses_snan(ctx, fi) for fi in g):
+            ok_snan, found_snan = False, "no function applied to the decoded item walks it and refuses Decimal signaling NaN"
+    R.check("C17-D10 signaling NaN refused", ok_snan, "deserialize_cbor", mod=de.module, node=de.node, function=ctx.fq(de),
+            expected="tag 4 [\"N\", 1] decodes to Decimal('sNaN'); `x == sNaN` raises decimal.InvalidOperation (ArithmeticError) in every key / enum "
+                     "lookup that compares a decoded value: d86ba1024a81488245c482614e0140 (15 bytes) escapes SuitEnvelopeTagged.from_cbor on the unrepaired tree",
+            found=found_snan)
     R.check("C17-D7 value sharing refused", ok_guard, "deserialize_cbor", mod=de.module, node=de.node, function=ctx.fq(de),
             expected="shared containers (CBOR tags 28/29) are rejected: every re-serialization would expand them again "
                      "(254 bytes -> 870 MB on the unrepaired tree)", found=found)
@@ -429,6 +439,46 @@ def _is_sharing_guard(ctx, fi) -> bool:
     loops = any(isinstance(n, (ast.While, ast.For)) for n in ast.walk(node)) or any(
         isinstance(n, ast.Call) and isinstance(n.func, (ast.Name, ast.Attribute)) and ast.unparse(n.func).split(".")[-1] == fi.name for n in ast.walk(node))
     return bool(tested and covers and loops)
+
+
+def _refuses_snan(ctx, fi) -> bool:
+    """A function that walks list / mapping / tag containers (loop or recursion) and raises an allowed error for an item that is a
+    Decimal and is_snan() / is_nan()."""
+    if not hasattr(fi, "node"):
+        return False
+    node = fi.node
+    refused = False
+    for n in ast.walk(node):
+        if not (isinstance(n, ast.If) and n.body and isinstance(n.body[-1], ast.Raise)):
+            continue
+        exc = n.body[-1].exc
+        name = ast.unparse(exc.func if isinstance(exc, ast.Call) else exc) if exc is not None else ""
+        if not allowed(name.split(".")[-1]):
+            continue
+        conj = n.test.values if isinstance(n.test, ast.BoolOp) and isinstance(n.test.op, ast.And) else [n.test]
+        is_dec = [c for c in conj if isinstance(c, ast.Call) and isinstance(c.func, ast.Name) and c.func.id == "isinstance" and len(c.args) == 2
+                  and any((isinstance(x, ast.Name) and x.id == "Decimal") or (isinstance(x, ast.Attribute) and x.attr == "Decimal") for x in ast.walk(c.args[1]))]
+        nan = [c for c in conj if isinstance(c, ast.Call) and isinstance(c.func, ast.Attribute) and c.func.attr in ("is_snan", "is_nan") and not c.args]
+        if is_dec and nan and len(conj) == len(is_dec) + len(nan) and all(ast.unparse(c.func.value) == ast.unparse(is_dec[0].args[0]) for c in nan):
+            # ... and the test is reached for every item walked: it sits directly in the body of the walking loop (or of the function),
+            # with no earlier statement of that body that can skip the rest (continue / break / return)
+            for blk in ast.walk(node):
+                if isinstance(blk, (ast.While, ast.For, ast.FunctionDef)) and any(x is n for x in blk.body):
+                    before = blk.body[:[i for i, x in enumerate(blk.body) if x is n][0]]
+                    if not any(isinstance(y, (ast.Continue, ast.Break, ast.Return)) for x in before for y in ast.walk(x)):
+                        refused = True
+    kinds = set()
+    for n in ast.walk(node):
+        if isinstance(n, ast.Call) and isinstance(n.func, ast.Name) and n.func.id == "isinstance" and len(n.args) == 2:
+            for x in ast.walk(n.args[1]):
+                if isinstance(x, ast.Name):
+                    kinds.add(x.id)
+                elif isinstance(x, ast.Attribute):
+                    kinds.add(x.attr)
+    walks = "list" in kinds and ("Mapping" in kinds or {"dict", "frozendict"} <= kinds) and "CBORTag" in kinds and "tuple" in kinds
+    loops = any(isinstance(n, (ast.While, ast.For)) for n in ast.walk(node)) or any(
+        isinstance(n, ast.Call) and isinstance(n.func, (ast.Name, ast.Attribute)) and ast.unparse(n.func).split(".")[-1] == fi.name for n in ast.walk(node))
+    return bool(refused and walks and loops)
 
 
 def _is_progress(stmt) -> bool:
